@@ -35,10 +35,10 @@ package main
 // tree there are no new functions and nothing is rewritten.
 
 import (
-	"go/constant"
 	"encoding/json"
 	"fmt"
 	"go/ast"
+	"go/constant"
 	"go/token"
 	"go/types"
 	"os"
@@ -53,6 +53,13 @@ import (
 var baselinePath string // set from -verif in main
 
 var normaliseLog []string
+
+// synthNamedResults: named results of an expanded helper (now locals of the caller). A deferred closure of the helper
+// that stores into them still "reports to the caller" as far as the error-discipline rules are concerned.
+var synthNamedResults = map[types.Object]bool{}
+
+// failureReturns: return statements synthesised by the normaliser on a path where the error result is known to be set.
+var failureReturns = map[*ast.ReturnStmt]bool{}
 
 // funcCanon maps a renamed function to a stand-in object with its baseline name (see normalise).
 var funcCanon = map[*types.Func]*types.Func{}
@@ -463,6 +470,9 @@ func (c *astCopier) val(v reflect.Value) reflect.Value {
 
 func (c *astCopier) dupInfo(old, nw interface{}) {
 	info := c.info
+	if r, ok := old.(*ast.ReturnStmt); ok && failureReturns[r] {
+		failureReturns[nw.(*ast.ReturnStmt)] = true
+	}
 	if e, ok := old.(ast.Expr); ok {
 		if tv, ok := info.Types[e]; ok {
 			info.Types[nw.(ast.Expr)] = tv
@@ -547,16 +557,16 @@ func mapStmtLists(n ast.Node, lits bool, f func(list []ast.Stmt) []ast.Stmt) {
 // ---------------------------------------------------------------- the inliner
 
 type inliner struct {
-	pk      *packages.Package
-	info    *types.Info
-	helpers map[*types.Func]*FuncInfo
+	pk       *packages.Package
+	info     *types.Info
+	helpers  map[*types.Func]*FuncInfo
 	closures map[types.Object]*FuncInfo // new local closure variables of the function being rewritten
-	seq     *int
-	changed bool
-	alias   map[types.Object]types.Object // caller variable defined from a helper result that is one local of the helper
-	brTrue  string                        // modeBranch: labels for `return true` / `return false`
-	brFalse string
-	thread  *errThread // modeAssign followed by `if err != nil {..}`: returns jump straight to the right side of that test
+	seq      *int
+	changed  bool
+	alias    map[types.Object]types.Object // caller variable defined from a helper result that is one local of the helper
+	brTrue   string                        // modeBranch: labels for `return true` / `return false`
+	brFalse  string
+	thread   *errThread // modeAssign followed by `if err != nil {..}`: returns jump straight to the right side of that test
 }
 
 // errThread: the caller tests the helper's error result right after the call.
@@ -570,6 +580,7 @@ type errThread struct {
 	usedErr         bool
 	nilness         map[token.Pos]string // position of a return in the helper -> "nil" / "nonnil" / ""
 	errBody         []ast.Stmt           // the caller's `if err != nil { .. }` body: duplicated at each failing return (when small)
+	cond            ast.Expr             // the caller's test
 }
 
 func (x *inliner) helperOfCall(c *ast.CallExpr) *FuncInfo {
@@ -749,7 +760,8 @@ func (x *inliner) expand(call *ast.CallExpr, h *FuncInfo, mode int, lhs []ast.Ex
 			for _, nm := range f.Names {
 				if rv, _ := x.info.Defs[nm].(*types.Var); rv != nil && nm.Name != "_" {
 					resultVars = append(resultVars, rv)
-					if mode != modeReturn {
+					synthNamedResults[rv] = true
+					{
 						id := x.newIdent(rv.Name(), pos, rv, true)
 						tid := &ast.Ident{NamePos: pos, Name: types.TypeString(rv.Type(), nil)}
 						x.info.Types[tid] = types.TypeAndValue{Type: rv.Type()}
@@ -759,12 +771,23 @@ func (x *inliner) expand(call *ast.CallExpr, h *FuncInfo, mode int, lhs []ast.Ex
 			}
 		}
 	}
-	if mode == modeReturn && len(resultVars) > 0 {
-		return nil // a bare return would refer to the caller's results
-	}
 	cp := &astCopier{info: x.info, subst: subst}
 	nb := cp.copyBlock(body)
+	x.foldConstantBranches(nb)
 	if mode == modeReturn {
+		if len(resultVars) > 0 {
+			// the helper's named results are locals of the expansion; a bare return names them
+			mapStmtLists(nb, false, func(list []ast.Stmt) []ast.Stmt {
+				for _, s := range list {
+					if ret, ok := s.(*ast.ReturnStmt); ok && len(ret.Results) == 0 {
+						for _, rv := range resultVars {
+							ret.Results = append(ret.Results, x.newIdent(rv.Name(), ret.Pos(), rv, false))
+						}
+					}
+				}
+				return list
+			})
+		}
 		x.changed = true
 		return append(out, nb.List...)
 	}
@@ -929,8 +952,14 @@ func (x *inliner) expand(call *ast.CallExpr, h *FuncInfo, mode int, lhs []ast.Ex
 				}
 				allBlank := true
 				for i := range l2 {
-					if _, al := aliasPos[i]; al {
-						l2[i] = &ast.Ident{NamePos: ret.Pos(), Name: "_"}
+					if ao, al := aliasPos[i]; al {
+						if rid, isId := ast.Unparen(vals[i]).(*ast.Ident); isId && x.info.Uses[rid] == ao {
+							l2[i] = &ast.Ident{NamePos: ret.Pos(), Name: "_"} // returns the variable itself
+						} else {
+							// a failure path returns nil/zero in this position: the shared variable is reset
+							l2[i] = x.newIdent(ao.Name(), ret.Pos(), ao, false)
+							allBlank = false
+						}
 					} else if id, ok := l2[i].(*ast.Ident); !ok || id.Name != "_" {
 						allBlank = false
 					}
@@ -973,9 +1002,23 @@ func (x *inliner) expand(call *ast.CallExpr, h *FuncInfo, mode int, lhs []ast.Ex
 						// tail duplication: the caller's error branch is copied to this failing return, so the
 						// facts of this path (which call failed, what was rolled back) reach its exits
 						plain := &astCopier{info: x.info}
+						var dup []ast.Stmt
 						for _, es := range x.thread.errBody {
-							res = append(res, plain.copyStmt(es))
+							dup = append(dup, plain.copyStmt(es))
 						}
+						// the copy runs only where the error is known to be set: its returns are failure exits
+						for _, ds := range dup {
+							ast.Inspect(ds, func(n ast.Node) bool {
+								if _, isLit := n.(*ast.FuncLit); isLit {
+									return false
+								}
+								if r, isRet := n.(*ast.ReturnStmt); isRet {
+									failureReturns[r] = true
+								}
+								return true
+							})
+						}
+						res = append(res, dup...)
 						target = x.thread.lOk
 					} else {
 						x.thread.usedErr = true
@@ -1081,6 +1124,11 @@ func (x *inliner) errNilness(h *FuncInfo, errIdx int) map[token.Pos]string {
 		case isNilIdent(x.info, v):
 			out[ret.Pos()] = "nil"
 		default:
+			if sel, ok := v.(*ast.SelectorExpr); ok {
+				if pv, isVar := x.info.Uses[sel.Sel].(*types.Var); isVar && !pv.IsField() && pv.Pkg() != nil && pv.Parent() == pv.Pkg().Scope() && isErrorType(pv.Type()) {
+					out[ret.Pos()] = "nonnil"
+				}
+			}
 			if c, ok := v.(*ast.CallExpr); ok {
 				if f := callee(x.info, c); f != nil && f.Pkg() != nil && (f.Pkg().Path() == "fmt" || f.Pkg().Path() == "errors") {
 					out[ret.Pos()] = "nonnil"
@@ -1088,6 +1136,13 @@ func (x *inliner) errNilness(h *FuncInfo, errIdx int) map[token.Pos]string {
 			}
 			if id, ok := v.(*ast.Ident); ok {
 				o := x.info.ObjectOf(id)
+				if _, isConst := o.(*types.Const); isConst {
+					out[ret.Pos()] = "nonnil" // a typed constant (bleve.Error) converted to error is never nil
+				}
+				// a package-level sentinel (`var ErrClosed = errors.New(..)`) is a non-nil error
+				if pv, isVar := o.(*types.Var); isVar && pv.Pkg() != nil && pv.Parent() == pv.Pkg().Scope() && isErrorType(pv.Type()) {
+					out[ret.Pos()] = "nonnil"
+				}
 				for _, fc := range g.GuardsOf(ret) {
 					e, isEq, isNil := nilTest(x.info, fc.Expr)
 					if fc.Tag != nil || !isNil || objOf(x.info, e) != o || o == nil {
@@ -1143,6 +1198,94 @@ func lastDefBefore(info *types.Info, body ast.Node, o types.Object, at ast.Stmt)
 		return true
 	})
 	return res
+}
+
+// foldConstantBranches: after a constant argument was substituted for a flag parameter
+// (`setMark(name, true)`), `if !flag {..}` is dead or unconditional code; prune it so that the
+// caller only shows the branch it really takes.
+func (x *inliner) foldConstantBranches(root *ast.BlockStmt) {
+	var konst func(e ast.Expr) (bool, bool)
+	konst = func(e ast.Expr) (bool, bool) {
+		switch y := ast.Unparen(e).(type) {
+		case *ast.Ident:
+			if c, ok := x.info.Uses[y].(*types.Const); ok && c.Val().Kind() == constant.Bool && c.Parent() == types.Universe {
+				return constant.BoolVal(c.Val()), true
+			}
+		case *ast.UnaryExpr:
+			if y.Op == token.NOT {
+				if v, ok := konst(y.X); ok {
+					return !v, true
+				}
+			}
+		case *ast.BinaryExpr:
+			a, oka := konst(y.X)
+			b, okb := konst(y.Y)
+			switch y.Op {
+			case token.LAND:
+				if (oka && !a) || (okb && !b) {
+					return false, true
+				}
+				if oka && okb {
+					return a && b, true
+				}
+			case token.LOR:
+				if (oka && a) || (okb && b) {
+					return true, true
+				}
+				if oka && okb {
+					return a || b, true
+				}
+			}
+		}
+		return false, false
+	}
+	mapStmtLists(root, false, func(list []ast.Stmt) (out []ast.Stmt) {
+		folded := false
+		defer func() {
+			if !folded {
+				return
+			}
+			// what follows an unconditional return in the same list is dead now (up to the next label)
+			for i, st := range out {
+				if _, isRet := st.(*ast.ReturnStmt); isRet {
+					j := i + 1
+					for j < len(out) {
+						if _, isLab := out[j].(*ast.LabeledStmt); isLab {
+							break
+						}
+						j++
+					}
+					out = append(out[:i+1:i+1], out[j:]...)
+					break
+				}
+			}
+		}()
+		for _, st := range list {
+			is, ok := st.(*ast.IfStmt)
+			if !ok || is.Init != nil {
+				out = append(out, st)
+				continue
+			}
+			v, isC := konst(is.Cond)
+			if !isC {
+				out = append(out, st)
+				continue
+			}
+			folded = true
+			if v {
+				out = append(out, is.Body.List...)
+			} else {
+				switch el := is.Else.(type) {
+				case *ast.BlockStmt:
+					out = append(out, el.List...)
+				case nil:
+				default:
+					out = append(out, el)
+				}
+			}
+		}
+		return out
+	})
 }
 
 // exprOf2ok reports whether the helper is a one-expression function (handled by exprOf).
@@ -1392,6 +1535,7 @@ func (x *inliner) rewriteList(list0 []ast.Stmt) []ast.Stmt {
 								th := &errThread{errIdx: errIdx, lErr: fmt.Sprintf("inl_err_%d", n), lOk: fmt.Sprintf("inl_ok_%d", n), lChk: fmt.Sprintf("inl_chk_%d", n)}
 								th.nilness = x.errNilness(h, errIdx)
 								th.errBody = is.Body.List
+								th.cond = is.Cond
 								x.thread = th
 								pre := x.hoistArgs(c)
 								st := x.expand(c, h, modeAssign, as.Lhs, as.Tok)
@@ -1599,6 +1743,88 @@ func (x *inliner) hoistArgs(c *ast.CallExpr) []ast.Stmt {
 	tmp := &ast.ExprStmt{X: &ast.CallExpr{Fun: &ast.Ident{Name: "_"}, Args: c.Args}}
 	pre := x.hoistNested(tmp)
 	return pre
+}
+
+// splitTuples: `a, b = x, y` is the two assignments `a = x; b = y` when no earlier left-hand side is
+// read by a later right-hand side.  Rules look at single assignments; which spelling the source uses is style.
+func (p *Prog) splitTuples() {
+	for _, fi := range p.flist {
+		if fi.Decl.Body == nil {
+			continue
+		}
+		info := fi.Pkg.TypesInfo
+		has := false
+		ast.Inspect(fi.Decl.Body, func(n ast.Node) bool {
+			if as, ok := n.(*ast.AssignStmt); ok && len(as.Lhs) > 1 && len(as.Lhs) == len(as.Rhs) && (as.Tok == token.ASSIGN || as.Tok == token.DEFINE) {
+				has = true
+			}
+			return !has
+		})
+		if !has {
+			continue
+		}
+		cp := &astCopier{info: info}
+		nb := cp.copyBlock(fi.Decl.Body)
+		changed := false
+		mapStmtLists(nb, true, func(list []ast.Stmt) []ast.Stmt {
+			var out []ast.Stmt
+			for _, st := range list {
+				as, ok := st.(*ast.AssignStmt)
+				if !ok || len(as.Lhs) < 2 || len(as.Lhs) != len(as.Rhs) || (as.Tok != token.ASSIGN && as.Tok != token.DEFINE) {
+					out = append(out, st)
+					continue
+				}
+				safe := true
+				for i := 0; i < len(as.Lhs) && safe; i++ {
+					li := exprStr(ast.Unparen(as.Lhs[i]))
+					lo := objOf(info, as.Lhs[i])
+					for j := i + 1; j < len(as.Rhs) && safe; j++ {
+						ast.Inspect(as.Rhs[j], func(n ast.Node) bool {
+							switch y := n.(type) {
+							case *ast.Ident:
+								if lo != nil && info.ObjectOf(y) == lo {
+									safe = false
+								}
+							case *ast.SelectorExpr, *ast.IndexExpr:
+								if lo == nil && exprStr(y.(ast.Expr)) == li {
+									safe = false
+								}
+							case *ast.CallExpr:
+								if lo == nil {
+									safe = false // a call might read the field/element being assigned
+								}
+							}
+							return safe
+						})
+					}
+				}
+				if !safe {
+					out = append(out, st)
+					continue
+				}
+				for i := range as.Lhs {
+					tok := token.ASSIGN
+					if id, isId := as.Lhs[i].(*ast.Ident); isId && as.Tok == token.DEFINE && (info.Defs[id] != nil || id.Name == "_") {
+						tok = token.DEFINE
+						if id.Name == "_" {
+							tok = token.ASSIGN
+						}
+					}
+					out = append(out, &ast.AssignStmt{Lhs: []ast.Expr{as.Lhs[i]}, TokPos: as.TokPos, Tok: tok, Rhs: []ast.Expr{as.Rhs[i]}})
+				}
+				changed = true
+			}
+			return out
+		})
+		if changed {
+			nd := *fi.Decl
+			nd.Body = nb
+			if fi.OrigDecl == nil {
+				fi.OrigDecl = fi.Decl
+			}
+			fi.Decl = &nd
+		}
+	}
 }
 
 // expandNewClosures: a block that was turned into a local closure (called, never passed around) is
